@@ -213,6 +213,7 @@ def run(ctx: Ctx, rep: Report) -> None:
     c01.check_order(ctx, sub, wm)
     c01.check_end_signals(ctx, sub, wm)
     rep.adopt(sub, "C02-R5")
+    rep.adopt_rules(ctx.sub_run("c03", rep), "C02-R5", ["C03-R2", "C03-R3"])
 
 
 def check_bulk_fetch(ctx: Ctx, rep: Report, wm: WalkModel, r0: str = "C02-R0", r1: str = "C02-R1", r4: str = "C02-R4") -> None:
